@@ -1,6 +1,7 @@
 from datetime import datetime, timezone
-from typing import Any, TYPE_CHECKING
+from typing import Any, Optional, TYPE_CHECKING
 from functools import lru_cache
+from math import copysign
 
 from dliswriter.utils.internal.internal_enums import RepresentationCode
 
@@ -149,7 +150,6 @@ _struct_dict = {
 }
 
 
-@lru_cache(maxsize=65536)
 def write_struct(representation_code: RepresentationCode, value: Any) -> bytes:
     """Convert a value to bytes according to the RP66 V1 spec.
 
@@ -160,6 +160,16 @@ def write_struct(representation_code: RepresentationCode, value: Any) -> bytes:
     Returns:
         Value converted to bytes depending on representation_code and RP66 V1 spec.
     """
+
+    if isinstance(value, float):
+        # the sign is made a part of the cache key, because 0.0 and -0.0 compare equal, but are encoded differently
+        return _write_struct(representation_code, value, copysign(1., value))
+    return _write_struct(representation_code, value)
+
+
+@lru_cache(maxsize=65536, typed=True)
+def _write_struct(representation_code: RepresentationCode, value: Any, _sign: Optional[float] = None) -> bytes:
+    """Cached implementation of write_struct. Values of different types (1, 1.0, True) are cached separately."""
 
     func = _struct_dict.get(representation_code, None)  # get a converter corresponding to the repr code
     if func:
